@@ -413,7 +413,8 @@ func (c *FnCtx) evalBuiltin(st *State, call *ast.CallExpr, name string) []*Val {
 			seq := c.fresh("mk_"+n, s)
 			if ln != nil {
 				if c.nopanic {
-					c.oblig(st, "make", "make: non-negative length", call, tApp(">=", ln.T, "0"), "")
+					// a length beyond 2^48 makes the runtime panic (makeslice: len out of range); sequences are at most 2^47 long
+					c.oblig(st, "make", "make: length non-negative and within the allocator's range", call, tAnd(tApp(">=", ln.T, "0"), tApp("<=", ln.T, "281474976710656")), "")
 				}
 				st.assume(tEq(tApp("len_"+n, seq), ln.T))
 			}
@@ -611,6 +612,9 @@ func (c *FnCtx) callFunc(st *State, call *ast.CallExpr, fn *types.Func, recv *Va
 	key := typesFuncKey(fn)
 	sig, _ := fn.Type().(*types.Signature)
 	con := c.V.specs.Contracts[key]
+	if con != nil && con.Flags["sweep-only"] {
+		con = nil
+	}
 	if con == nil {
 		// interface method: try "<pkg>.<Iface>.<m>" already; else fall back
 		return c.callNoContract(st, call, fn, recv, args, key)
